@@ -22,7 +22,7 @@ from pyvc import run as RUN  # noqa
 from pyvc import lemmas as LEM  # noqa
 import pyvc.pandas_model  # noqa  (registers the assumed pandas contracts)
 
-CONTRACT_MODULES = ['filter_utils', 'generic_helper', 'validation', 'profiler', 'missing_value_handler', 'externals', 'token_ordering', 'token_ordering2', 'position', 'position_build', 'position_fc', 'set_sim_join', 'join_drivers', 'overlap', 'candset', 'size', 'matcher', 'ovcoeff', 'prefix', 'editdist', 'prefix_tables', 'position_tables', 'prefix_pair']
+CONTRACT_MODULES = ['filter_utils', 'generic_helper', 'validation', 'profiler', 'missing_value_handler', 'externals', 'token_ordering', 'token_ordering2', 'position', 'position_build', 'position_fc', 'set_sim_join', 'join_drivers', 'overlap', 'candset', 'size', 'matcher', 'ovcoeff', 'prefix', 'editdist', 'prefix_tables', 'position_tables', 'prefix_pair', 'position_pair']
 
 
 def load_contracts():
